@@ -500,8 +500,8 @@ silent("c11-s-product-commuted", "C11", ADJOINT,
        "        lhs_adj = adj_prod_op(out_adj, rhs)\n        rhs_adj = adj_prod_op(out_adj, lhs)\n        return ((lhs, lhs_adj), (rhs, rhs_adj))",
        "        lhs_adj = adj_prod_op(rhs, out_adj)\n        rhs_adj = adj_prod_op(lhs, out_adj)\n        return ((lhs, lhs_adj), (rhs, rhs_adj))")
 silent("c11-s-cat-size-local", "C11", ADJOINT,
-       "        part_slice = Slice(name, start, start + part.inputs[part_name].dtype, 1, size)\n        part_adj = out_adj(**{name: part_slice})\n        in_adjs.append((part, part_adj))\n        start += part.inputs[part_name].dtype\n",
-       "        part_size = part.inputs[part_name].dtype\n        part_slice = Slice(name, start, start + part_size, 1, size)\n        part_adj = out_adj(**{name: part_slice})\n        in_adjs.append((part, part_adj))\n        start += part_size\n")
+       "        part_slice = Slice(\n            part_name, start, start + part.inputs[part_name].dtype, 1, size\n        )\n        part_adj = out_adj(**{name: part_slice})\n        in_adjs.append((part, part_adj))\n        start += part.inputs[part_name].dtype\n",
+       "        part_size = part.inputs[part_name].dtype\n        part_slice = Slice(part_name, start, start + part_size, 1, size)\n        part_adj = out_adj(**{name: part_slice})\n        in_adjs.append((part, part_adj))\n        start += part_size\n")
 
 # ----------------------------------------------------------------------------------------------------------------- later additions
 fire("c01-mean-count-before-restriction", "C01", TERMS,
@@ -720,7 +720,7 @@ fire("c05-integrate-renaming-map-filtered", "C05", "funsor/integrate.py",
      "            k: to_funsor(v, self.integrand.inputs[k])\n            for k, v in alpha_subs.items()\n            if k in self.integrand.inputs\n", "R05.1", "Integrate._alpha_convert")
 fire("c05-step-names-sorted-independently", "C05", "funsor/sum_product.py",
      "    step = OrderedDict(sorted(step.items()))\n    prev_to_drop = dict(zip(step.keys(), drop))\n    curr_to_drop = dict(zip(step.values(), drop))\n",
-     "    prev_to_drop = dict(zip(sorted(step.keys()), drop))\n    curr_to_drop = dict(zip(sorted(step.values()), drop))\n", "R05.1", "sequential_sum_product")
+     "    prev_to_drop = dict(zip(sorted(step.keys()), drop))\n    curr_to_drop = dict(zip(sorted(step.values()), drop))\n", "R05.1", "sum_product", count=2, nth=0)
 fire("c16-add-refills-dispatch-cache", "C16", REGISTRY,
      "        signature = tuple(map(typing_wrap, signature))\n        super().add(signature, func)\n",
      "        signature = tuple(map(typing_wrap, signature))\n        old = dict(self._cache)\n        super().add(signature, func)\n        self._cache.update(old)\n", "R16.6", "PartialDispatcher")
@@ -839,6 +839,12 @@ fire("c03-memo-key-folds-varargs-off-by-one", "C03", INTERP,
 silent("c03-s-memo-key-folds-varargs-correctly", "C03", INTERP,
        "        key = (cls,) + self.make_hash_key(cls, *args)",
        "        num_fields = len(cls._ast_fields)\n        key_args = args\n        if len(args) > num_fields:\n            key_args = args[: num_fields - 1] + (args[num_fields - 1 :],)\n        key = (cls,) + self.make_hash_key(cls, *key_args)")
+
+
+fire("c11-adjoint-cat-tests-part-name", "C11", ADJOINT,
+     "    if name not in out_adj.inputs:\n        return tuple((part, out_adj) for part in parts)", "    if part_name not in out_adj.inputs:\n        return tuple((part, out_adj) for part in parts)", "R11.5", "adjoint_cat")
+fire("c11-adjoint-cat-slice-named-by-cat-dim", "C11", ADJOINT,
+     "        part_slice = Slice(\n            part_name, start,", "        part_slice = Slice(\n            name, start,", "R11.5", "adjoint_cat")
 
 
 # ===== derived variants: must stay at the END of this file (they enumerate every rename() variant above) =====
